@@ -77,7 +77,12 @@ def run(ctx):
         elif kind == 'copy':
             b = copy.deepcopy(a)
         elif kind == 'pickle':
-            b = pickle.loads(pickle.dumps(a))
+            try:
+                b = pickle.loads(pickle.dumps(a))
+            except Exception as e:  # noqa
+                ctx.violation('impl-violation', op='pickle', input=json.dumps(sa), observed=f'exception {type(e).__name__}: {e}',
+                              expected='an equal tree with the same identities')
+                continue
         elif kind == 'mutant':
             b = impl.from_shape(mutate(sa))
         else:  # b shares subtrees (same ids) with a
@@ -141,7 +146,16 @@ def run(ctx):
             pool_payloads.append([a, nc.gen_tree(impl, rng, 3)])
     # --- through a fork-based pool
     with multiprocessing.get_context('fork').Pool(3) as pool:
-        for payload, (seen, back, mod) in zip(pool_payloads, pool.map(_worker, pool_payloads)):
+        try:
+            # (a worker that cannot unpickle its arguments loses the task, and a plain map would wait for ever)
+            pres = pool.map_async(_worker, pool_payloads).get(timeout=90)
+        except Exception as e:  # noqa
+            pres = []
+            ctx.violation('impl-violation', op='pool', input=json.dumps([impl.to_shapes(p_) for p_ in pool_payloads[:3]])[:1500],
+                          observed=f'sending trees to the workers of a fork pool failed: {type(e).__name__}: {e}',
+                          expected='every tree arrives in the worker and comes back equal, with the same identities and hash')
+            pool.terminate()
+        for payload, (seen, back, mod) in zip(pool_payloads, pres):
             for t, (sv, sh), bt in zip(payload, seen, back):
                 ctx.case(['pool', impl.to_shape(t)], not t.is_leaf())
                 ctx.count('pool-transfer')
